@@ -102,6 +102,13 @@ P.update({
           'explicit TLA+ transcription of the path function, exhaustive TLC enumeration of names, oracle evaluation of recorded executions'),
 })
 
+P.update({
+  'C18': (True, 'Tags.tla',
+          'Tags.tla transcribes parse_carbon / validateTagAndValue / sanitize_name_as_tag_value / format over character codes; TLC proves Idempotent over EVERY string up to the length bound over the reserved characters and Canonical over every order of the tag list of every valid series of a small universe; the real TaggedSeries.parse, CacheFeedingProcessor.process (key stored in the real cache) and RelayProcessor.process (name handed to the client manager) run on arbitrary strings over ; ! ^ = ~ { } \" \\ , and letters - judged by TLC against the transcribed parser - and on valid series rendered in all permutations of up to 4 tags in carbon and OpenMetrics syntax with and without a name tag, which must all give the canonical form.',
+          'tag sets have distinct keys; the OpenMetrics regex is not transcribed: that syntax is judged through rendered series only',
+          'explicit TLA+ transcription of the parser, exhaustive TLC enumeration, oracle evaluation of recorded executions'),
+})
+
 PENDING_REASON = 'check not built yet in this round (planned per DESIGN.md section 5); not claimed until its TLA+ model and conformance harness exist'
 
 
